@@ -108,6 +108,44 @@ static void op_send(const uint8_t* b, int n)
     if (full && (r || n_tx != before)) { if (!kwin_fail) snprintf(kwin_info, sizeof kwin_info, "client at ops-file offset %ld: window full but sendASDU returned %d and wrote %ld frames", (long) ftell(ops), r, n_tx - before); kwin_fail++; }
     logf_("send %d", r ? 1 : 0); flush_obs();
 }
+/* C09: the hand-written command builders of the client (cs104_connection.c:1137-1375) */
+static int n_cmds = 0, cmd_kinds[6];
+static void op_al(int sioa, int oa)
+{
+    fprintf(ops, "c.al %d %d\n", sioa, oa); fflush(ops);
+    CS101_AppLayerParameters al = CS104_Connection_getAppLayerParameters(con); al->sizeOfIOA = sioa; al->originatorAddress = oa;
+    fprintf(impl, "ok\n");
+}
+static void op_cmd(int kind, int a, int b, int d, const uint8_t* t7)
+{
+    static char hx[40]; hexs(hx, t7, 7); fprintf(ops, "c.cmd %d %d %d %d %s\n", kind, a, b, d, hx); fflush(ops);
+    struct sCP56Time2a tm; memcpy(tm.encodedValue, t7, 7);
+    bool r = false; n_cmds++; cmd_kinds[kind % 6]++;
+    switch (kind) {
+    case 0: r = CS104_Connection_sendInterrogationCommand(con, (CS101_CauseOfTransmission) a, b, (QualifierOfInterrogation) d); break;
+    case 1: r = CS104_Connection_sendCounterInterrogationCommand(con, (CS101_CauseOfTransmission) a, b, (uint8_t) d); break;
+    case 2: r = CS104_Connection_sendReadCommand(con, a, b); break;
+    case 3: r = CS104_Connection_sendClockSyncCommand(con, a, &tm); break;
+    case 4: r = CS104_Connection_sendTestCommand(con, a); break;
+    default: r = CS104_Connection_sendTestCommandWithTimestamp(con, a, (uint16_t) b, &tm); break;
+    }
+    n_sends++; if (!r) n_send_refused++;
+    logf_("send %d", r ? 1 : 0); flush_obs();
+}
+static void rnd_cmd(void)
+{
+    uint8_t t7[7]; for (int i = 0; i < 7; i++) t7[i] = (uint8_t) prng_next();
+    int kind = prng_below(6);
+    int ca = prng_below(3) ? (int) prng_below(65536) : (int) prng_below(256);
+    int ioa = prng_below(3) == 0 ? (int) prng_below(256) : (prng_below(2) ? (int) prng_below(65536) : (int) (prng_next() & 0xffffff));
+    static const int COT[] = { 6, 8, 5, 7, 3, 10, 44, 63 };
+    switch (kind) {
+    case 0: case 1: op_cmd(kind, COT[prng_below(8)], ca, prng_below(256), t7); break;
+    case 2: op_cmd(2, ca, ioa, 0, t7); break;
+    case 3: case 4: op_cmd(kind, ca, 0, 0, t7); break;
+    default: op_cmd(5, ca, prng_below(65536), 0, t7); break;
+    }
+}
 static void op_close(void) { fprintf(ops, "c.close\n"); fflush(ops); CS104_Connection_close(con); flush_obs(); }
 
 static int frame_u(uint8_t* b, int ctl) { b[0] = 0x68; b[1] = 4; b[2] = ctl; b[3] = b[4] = b[5] = 0; return 6; }
@@ -128,6 +166,7 @@ static void episode(bool thorough)
     int k = prng_below(4) ? prng_range(1, 12) : prng_range(1, 3), w = prng_range(1, 8), t1 = prng_range(2, 6), t2 = prng_range(1, t1 > 2 ? t1 - 1 : 1), t3 = prng_range(2, 10);
     int scot = prng_range(1, 2), sca = prng_range(1, 2), hdr = 2 + scot + sca;
     op_new(k, w, 10, t1, t2, t3, scot, sca);
+    if (prng_below(4)) op_al(prng_range(1, 3), prng_below(256));
     int rounds = prng_range(1, 3);
     for (int r = 0; r < rounds; r++) {
         op_connect(prng_below(12) != 0); op_step(); op_step(); op_step();
@@ -139,7 +178,8 @@ static void episode(bool thorough)
             int x = prng_below(100); uint8_t f[300], a[260];
             if (x < 22) op_step();
             else if (x < 32) { op_adv(prng_below(4) ? prng_range(0, 60) : prng_range(400, 1200) * prng_range(1, 4)); op_step(); }
-            else if (x < 50) { int n = rnd_asdu(a, hdr); op_send(a, n); }
+            else if (x < 44) { int n = rnd_asdu(a, hdr); op_send(a, n); }
+            else if (x < 50) rnd_cmd();
             else if (x < 68) { int ns = con->receiveCount, nr = ack_nr(k); if (prng_below(25) == 0) ns = (ns + prng_range(1, 3)) % 32768; if (prng_below(25) == 0) nr = prng_below(32768);
                 int n = rnd_asdu(a, hdr); if (prng_below(30) == 0) n = prng_below(hdr + 1); deliver(f, frame_i(f, ns, nr, a, n)); if (prng_below(2)) op_step(); }
             else if (x < 82) { int nr = ack_nr(k); if (prng_below(25) == 0) nr = prng_below(32768); deliver(f, frame_s(f, nr)); if (prng_below(2)) op_step(); }
@@ -173,7 +213,7 @@ int main(int argc, char** argv)
     if (kwin_fail) printf("KWIN_FAIL %s\n", kwin_info);
     if (life_fail) printf("LIFE_FAIL %s\n", life_info);
     if (t2_fail) printf("T2_FAIL %s\n", t2_info);
-    printf("HISTO role=client wire_violations=%d kwin_violations=%d life_violations=%d tx=%ld asdu_callbacks=%ld events=%ld thread_steps=%ld sends=%ld refused=%ld attempts=%d sem_max=%d sem_violations=%d deadlock=%d live_sem=%d live_threads=%d\n",
+    printf("HISTO role=client commands=%d wire_violations=%d kwin_violations=%d life_violations=%d tx=%ld asdu_callbacks=%ld events=%ld thread_steps=%ld sends=%ld refused=%ld attempts=%d sem_max=%d sem_violations=%d deadlock=%d live_sem=%d live_threads=%d\n", n_cmds,
         wire_fail, kwin_fail, life_fail, n_tx, n_asdu, n_ev, n_steps, n_sends, n_send_refused, attempts, sim_sem_max_value, sim_sem_violations, sim_deadlock, sim_live_semaphores, sim_live_threads);
     return 0;
 }
